@@ -2,7 +2,7 @@ CONSTANTS
   BufCap = 25
   HeadLimit = 30
   TotalLimit = 70
-  MaxRecs = 5
+  MaxRecs = 4
   MaxFiles = 3
   MaxCrash = 1
   MaxStop = 0
